@@ -6,6 +6,8 @@
 #include <igris/util/string.h>
 
 std::string w_trim(const char *p, size_t n) { return igris::trim(igris::buffer(p, n)); }
+std::string w_trim_s(const std::string &s) { return igris::trim(s); }
+std::string w_trim_sv(std::string_view s) { return igris::trim(s); }
 std::string w_join_iter(const std::vector<std::string> &v, const char *delim, const char *prefix, const char *postfix)
 {
     return igris::join(v.begin(), v.end(), delim, prefix, postfix);
